@@ -29,6 +29,11 @@ CHECKS.update({
  "C18": _chain("C18", "ibc", "Outgoing withdrawals (trace and ibc/ spelling, plain and bridge senders) and incoming packets / acks / time-outs are driven through the real Ics20Transfer handlers; an independent ICS-20 ledger per (channel, sequencer-origin asset) must equal the escrow keys after every step, error-acknowledged receives must change nothing but the ack record, successful ones exactly what the source/sink rule says (incl. the bridge deposit).", note="packets are driven at the penumbra AppHandler boundary (no ICS-23 proof verification); each outgoing packet is resolved at most once, as IBC core guarantees"),
 })
 
+CHECKS["C13"] = dict(engine="mempool-walk", cat="exploration", ref="DESIGN.md §5 C13",
+   technique="runtime monitoring: model-based random operation sequences on the real Mempool with an in-crate structure walker (private pending/parked maps read under the mempool's own lock at quiescent points) and a status sweep; offline invariant oracle over the op log",
+   text="Thousands of operations (inserts with gaps/duplicates/stale nonces, invalid-removals, block inclusions, balance and nonce moves, fee re-costing, expiry with a short TTL, bursts of >15 ready transactions followed by a drained balance) on 2-6 accounts x 3 assets; after every operation the private structure and the status of every accepted id are recorded and the oracle checks exactly-one-place, consecutive ready nonces, affordability against the balances shown, build order, stale-nonce removal and parked limits.",
+   note="costs are those reported by CheckedTransaction::total_costs; callers respect the documented contract that shown nonces never decrease; cache bounds are not crossed so eviction cannot explain a missing status")
+
 def main():
     hooks = subprocess.run(["git", "-C", "/repo", "log", "--format=%h", "--grep=^verif hooks:"], capture_output=True, text=True).stdout.split()
     m = {
@@ -44,6 +49,7 @@ def main():
      "engines": [
        {"name": "vh-merkle", "path": "harness/ext/vh-merkle", "serves_properties": ["C08"], "kind_free_text": "external harness binary on the public astria-merkle API + Miri"},
        {"name": "conductor-celestia", "path": "harness/conductor/celestia.rs", "serves_properties": ["C09"], "kind_free_text": "in-crate test-only child module of astria_conductor::celestia (feature verif)"},
+       {"name": "mempool-walk", "path": "harness/seq/mempool.rs", "serves_properties": ["C13"], "kind_free_text": "in-crate test-only child module of astria_sequencer::mempool (feature verif)"},
        {"name": "chainsim", "path": "harness/seq/app", "serves_properties": ["C01","C02","C03","C04","C05","C06","C07","C14","C15","C18"], "kind_free_text": "in-crate multi-node ABCI driver inside astria_sequencer::app (feature verif) + offline Python oracles"},
      ],
      "checks": [],
